@@ -128,3 +128,33 @@ Print Assumptions geom_domains_announced_count_checked.
 Theorem geom_failed_stream_stays_failed : forall v n s, bad s = true -> bad (fst (read_domains v n s)) = true.
 Proof. exact GeomLexCounts.read_domains_bad. Qed.
 Print Assumptions geom_failed_stream_stays_failed.
+
+(* .cond definition loop (token level, repaired reader: a value that cannot be read is an error) and the lookup of the
+   domain names; Sensors::load column-count logic.  Models Geom/CondSensors.v, tied outcome-exactly by the sweep. *)
+From OM Require Import Geom.CondSensors Geom.CondSensorsProofs.
+(* no hang on the model side: every turn of the loop consumes input, so with fuel above the size of the file the loop
+   has ended by itself -- the answer of the model never comes from running out of fuel.  (A reader that spins, like the
+   seeded change C19-5, shows up as the outcome class `timeout`, which is neither Ok nor Error.) *)
+Theorem cond_loop_terminates : forall fuel s acc, (ctotal s < fuel)%nat -> cond_loop fuel s acc <> CFuel.
+Proof. exact CondSensorsProofs.cond_loop_terminates. Qed.
+Print Assumptions cond_loop_terminates.
+Theorem cond_answer_is_own : forall s acc, cond_loop (S (ctotal s)) s acc <> CFuel.
+Proof. exact CondSensorsProofs.cond_answer_is_own. Qed.
+Print Assumptions cond_answer_is_own.
+Theorem cond_strict_total : forall header_ok s doms, load_cond_strict header_ok s doms = true \/ load_cond_strict header_ok s doms = false.
+Proof. exact CondSensorsProofs.cond_strict_total. Qed.
+Print Assumptions cond_strict_total.
+Theorem cond_accept_all_defined : forall s doms, load_cond_strict true s doms = true ->
+  exists names, cond_loop (S (ctotal s)) s [] = COk names /\ forall d, In d doms -> In d names.
+Proof. exact CondSensorsProofs.cond_accept_all_defined. Qed.
+Print Assumptions cond_accept_all_defined.
+
+Theorem sensors_uniform_columns : forall ls n k nc, sensors_load ls = SOk n k nc ->
+  let ne := filter (fun l => negb (s_empty l)) ls in
+  n = length ne /\ (3 <= nc)%nat /\ nc <> 4%nat /\ exists c, (c = nc \/ c = S nc) /\ forall l, In l ne -> s_ntok l = c.
+Proof. exact CondSensorsProofs.sensors_uniform_columns. Qed.
+Print Assumptions sensors_uniform_columns.
+Theorem sensors_short_line_rejected : forall ls l0 t l,
+  filter (fun l => negb (s_empty l)) ls = l0 :: t -> In l t -> s_ntok l <> s_ntok l0 -> sensors_load ls = SErr.
+Proof. exact CondSensorsProofs.sensors_short_line_rejected. Qed.
+Print Assumptions sensors_short_line_rejected.
